@@ -136,3 +136,112 @@ func serviceListSplice(p *Prog, f *Fn, c *ast.CallExpr) bool {
 	})
 	return assignedBack
 }
+
+// ---- C03-c: two conditions never share a backing array ----
+
+func init() {
+	const expl = "C03-c (AST, typed): in package query no assignment copies a slice header from one value to the same field of another value of the same type (`b.Summands = a.Summands`, a ≠ b): lower and upper bound of a single value, alternatives of a disjunction and the like are separate conditions that are normalised in place (factors negated, summands merged); sharing one backing array applies such a step twice. A copy (make+copy, append to nil, slices.Clone) is required; copying from a value of another type (the parser's own structs) is not affected."
+	rule := func(name string) func(*Prog, *Res) {
+		return func(p *Prog, r *Res) {
+			r.Rule(name + ": no slice header is copied between two values of one condition type")
+			n, nAssign, nMoves := 0, 0, 0
+			for _, f := range p.FnList {
+				if f.Short != "query" || f.Body() == nil {
+					continue
+				}
+				info := f.Pkg.TypesInfo
+				inspectShallow(f.Body(), func(x ast.Node) bool {
+					as, ok := x.(*ast.AssignStmt)
+					if !ok || len(as.Lhs) != len(as.Rhs) {
+						return true
+					}
+					for i, l := range as.Lhs {
+						ls, ok1 := ast.Unparen(l).(*ast.SelectorExpr)
+						if !ok1 {
+							continue
+						}
+						if _, isSl := info.TypeOf(l).Underlying().(*types.Slice); !isSl {
+							continue
+						}
+						nAssign++
+						rhs := ast.Unparen(as.Rhs[i])
+						for {
+							// a re-slice of the field (x.F[:n], x.F[:n:n]) still is the same backing array
+							if sl, ok := rhs.(*ast.SliceExpr); ok {
+								rhs = ast.Unparen(sl.X)
+								continue
+							}
+							break
+						}
+						rs, ok2 := rhs.(*ast.SelectorExpr)
+						if !ok2 || info.Uses[ls.Sel] != info.Uses[rs.Sel] {
+							continue
+						}
+						if types.ExprString(ls.X) == types.ExprString(rs.X) {
+							continue
+						}
+						// a move out of a value that is dead afterwards (a local of this function that is not mentioned again and
+						// does not survive into another loop iteration) shares nothing
+						if src := rootIdentOf(rs.X); src != nil {
+							if so, ok := info.Uses[src].(*types.Var); ok && rootIdentOf(ls.X) != nil && info.Uses[rootIdentOf(ls.X)] != types.Object(so) &&
+								so.Pos() > f.Body().Pos() && so.Pos() < f.Body().End() {
+								usedLater := false
+								ast.Inspect(f.Body(), func(y ast.Node) bool {
+									if id, ok := y.(*ast.Ident); ok && info.Uses[id] == types.Object(so) && id.Pos() > as.End() {
+										usedLater = true
+									}
+									return !usedLater
+								})
+								survivesLoop := false
+								inspectParents(f.Body(), func(y ast.Node, parents []ast.Node) bool {
+									if y == ast.Node(as) {
+										for _, par := range parents {
+											switch par.(type) {
+											case *ast.ForStmt, *ast.RangeStmt:
+												if so.Pos() < par.Pos() {
+													survivesLoop = true
+												}
+											}
+										}
+									}
+									return true
+								})
+								if !usedLater && !survivesLoop {
+									nMoves++
+									continue
+								}
+							}
+						}
+						n++
+						key := fmt.Sprintf("%s %s = %s", f.Key(), types.ExprString(l), types.ExprString(as.Rhs[i]))
+						r.Bad(name, key, p.Pos(as), "two values of type "+types.TypeString(info.TypeOf(ls.X), nil)+" now share the backing array of "+ls.Sel.Name+": an in-place normalisation step on one of them (negation of factors, merging of summands) is applied to the other as well")
+					}
+					return true
+				})
+			}
+			r.Note("%s: %d assignments to slice-typed fields in package query examined, %d copy a header between sibling values, %d moves out of a dead local", name, nAssign, n, nMoves)
+			r.Floor(name+" slice-field assignments examined", 10, nAssign)
+		}
+	}
+	register("C03", expl, rule("C03-c no-shared-backing-between-conditions"))
+}
+
+// rootIdentOf returns the identifier at the root of a selector/index/star/paren chain (nil if the root is a call etc.).
+func rootIdentOf(e ast.Expr) *ast.Ident {
+	for {
+		switch x := ast.Unparen(e).(type) {
+		case *ast.Ident:
+			return x
+		case *ast.SelectorExpr:
+			e = x.X
+		case *ast.IndexExpr:
+			e = x.X
+		case *ast.StarExpr:
+			e = x.X
+		case *ast.UnaryExpr:
+			e = x.X
+		default:
+			return nil
+		}
+	}
+}
